@@ -182,9 +182,65 @@ func (c *FnCtx) havocResult(st *State, rt types.Type, prefix string) Val {
 	return v
 }
 
-// assumeAllocatedOrFresh: results of unknown calls may be new objects; nothing is assumed about
-// allocation except non-negativity.
-func (c *FnCtx) assumeAllocatedOrFresh(st *State, v Val) {}
+// contractResult: result of a callee with a contract. Contracted callees allocate nothing
+// visible to the caller except what they return: the allocated set afterwards is exactly the
+// old one plus the references in the result.
+func (c *FnCtx) contractResult(st *State, rt types.Type, prefix string) Val {
+	if t, ok := rt.(*types.Tuple); ok && t.Len() == 0 {
+		return Val{T: rt, K: KTuple}
+	}
+	v := c.freshVal(st, rt, prefix)
+	cur := st.alloc
+	changed := false
+	walkLeaves(v, "", func(path string, leaf Val) {
+		if leaf.K == KRef || strings.HasSuffix(path, "#base") {
+			cur = ite(eq(leaf.S, "0"), cur, sto(cur, leaf.S, "true"))
+			changed = true
+			if leaf.K == KRef {
+				if pt, ok := leaf.T.Underlying().(*types.Pointer); ok {
+					if tid := c.refTypeID(pt.Elem()); tid != "" {
+						st.assume(or(eq(leaf.S, "0"), eq("(rtype "+leaf.S+")", tid)))
+					}
+				}
+			}
+		}
+	})
+	if changed {
+		na := c.fresh("alloc", "(Array Int Bool)")
+		st.assume(eq(na, cur))
+		st.alloc = na
+	}
+	return v
+}
+
+// assumeAllocatedOrFresh: a call may allocate. The allocated set after the call is a superset of
+// the one before; every reference in the result is nil or allocated afterwards.
+func (c *FnCtx) assumeAllocatedOrFresh(st *State, v Val) {
+	hasRef := false
+	walkLeaves(v, "", func(path string, leaf Val) {
+		if leaf.K == KRef || leaf.K == KIface || strings.HasSuffix(path, "#base") {
+			hasRef = true
+		}
+	})
+	if !hasRef {
+		return
+	}
+	na := c.fresh("alloc", "(Array Int Bool)")
+	st.assume(fmt.Sprintf("(forall ((r Int)) (=> (select %s r) (select %s r)))", st.alloc, na))
+	st.alloc = na
+	walkLeaves(v, "", func(path string, leaf Val) {
+		if leaf.K == KRef || strings.HasSuffix(path, "#base") {
+			st.assume(or(eq(leaf.S, "0"), sel(na, leaf.S)))
+			if leaf.K == KRef {
+				if pt, ok := leaf.T.Underlying().(*types.Pointer); ok {
+					if tid := c.refTypeID(pt.Elem()); tid != "" {
+						st.assume(or(eq(leaf.S, "0"), eq("(rtype "+leaf.S+")", tid)))
+					}
+				}
+			}
+		}
+	})
+}
 
 func (c *FnCtx) canInline(f *ssa.Function) bool {
 	if f == nil || f.Blocks == nil || c.inlineDepth >= 3 {
@@ -283,7 +339,7 @@ func (c *FnCtx) callByContract(frame *Frame, st *State, in ssa.Instruction, call
 	for _, m := range fc.Modifies {
 		c.havocModItem(st, env, m, preHeap)
 	}
-	res := c.havocResult(st, rt, "ret."+short)
+	res := c.contractResult(st, rt, "ret."+short)
 	if fc.Pure && res.IsScalar() {
 		// result is a function of the scalar argument leaves
 		var leaves, sorts []string
@@ -343,8 +399,19 @@ func (c *FnCtx) paramNames(callee *ssa.Function, fc *FuncContract, n int) []stri
 	}
 	var names []string
 	if callee != nil {
-		for _, p := range callee.Params {
-			names = append(names, p.Name())
+		if len(callee.Params) > 0 {
+			for _, p := range callee.Params {
+				names = append(names, p.Name())
+			}
+			return names
+		}
+		// no body (imported through export data): names from the signature
+		sig := callee.Signature
+		if sig.Recv() != nil {
+			names = append(names, sig.Recv().Name())
+		}
+		for i := 0; i < sig.Params().Len(); i++ {
+			names = append(names, sig.Params().At(i).Name())
 		}
 		return names
 	}
@@ -364,6 +431,10 @@ func (c *FnCtx) callOrdinal(in ssa.Instruction, key string) int {
 // havocModItem havocs the locations named by one modifies item (evaluated in env).
 func (c *FnCtx) havocModItem(st *State, env *SpecEnv, m ModItem, preHeap map[string]string) {
 	switch m.Kind {
+	case "every":
+		for _, name := range c.everyArrays(env.pkg, m) {
+			c.heapHavoc(st, name)
+		}
 	case "all":
 		for name := range c.allArrays() {
 			c.heapHavoc(st, name)
@@ -454,6 +525,29 @@ func (c *FnCtx) havocMapRow(st *State, mv Val) {
 	}
 }
 
+// everyArrays lists the heap arrays of a "modifies every T.f" item.
+func (c *FnCtx) everyArrays(pkg *types.Package, m ModItem) []string {
+	t := c.eng.resolveType(pkg, m.Type)
+	if t == nil {
+		c.errs = append(c.errs, "modifies every: unknown type "+m.Type)
+		return nil
+	}
+	ft, ghost := c.fieldType(t, m.Name)
+	if ft == nil {
+		c.errs = append(c.errs, "modifies every: unknown field "+m.Type+"."+m.Name)
+		return nil
+	}
+	path := m.Name
+	if ghost {
+		path = "$" + m.Name
+	}
+	var out []string
+	for _, lf := range leavesOf(ft) {
+		out = append(out, arrName("F", typeName(t), joinPath(path, lf.Path), lf.Sort))
+	}
+	return out
+}
+
 func (c *FnCtx) allArrays() map[string]bool {
 	out := map[string]bool{}
 	for n := range c.declared {
@@ -476,6 +570,9 @@ func (c *FnCtx) fieldType(t types.Type, name string) (types.Type, bool) {
 	if n, ok := t.(*types.Named); ok {
 		for _, g := range c.eng.cs.Ghosts {
 			if g.Type == n.Obj().Name() && g.Name == name && (n.Obj().Pkg() == nil || g.PkgPath == n.Obj().Pkg().Path()) {
+				if g.FieldType == "int" {
+					return types.Typ[types.UntypedInt], true // ghost integers are mathematical
+				}
 				gt := c.eng.resolveType(n.Obj().Pkg(), g.FieldType)
 				if gt != nil {
 					return gt, true
